@@ -106,6 +106,8 @@ fn current_zone(var: Option<&str>) -> TimeZone {
 impl Cache {
     fn offset(&mut self, d: NaiveDateTime, local: bool) -> MappedLocalTime<FixedOffset> {
         let now = SystemTime::now();
+        #[cfg(chrono_verif)]
+        let now = super::verif::now_or(now);
 
         match now.duration_since(self.last_checked) {
             // If the cache has been around for less than a second then we reuse it
